@@ -1400,8 +1400,25 @@ func (p *partition) messageProcessingLoop(recvChan <-chan *nats.Msg, stop <-chan
 			batchTimer.Stop()
 		}
 
-		// Write uncommitted messages to log.
+		// Write uncommitted messages to log, unless this server has stopped
+		// leading the partition in the meantime. stopLeader is closed with the
+		// partition mutex held, and a server which becomes a follower keeps
+		// holding it until its log has been reconciled with the new leader.
+		// Checking and appending under the read lock therefore orders this
+		// append before that truncation; otherwise the batch is dropped (it
+		// has not been acknowledged). Without this, a message taken off the
+		// channel just before the leader change is appended to the already
+		// truncated log of what is now a follower, which then resumes fetching
+		// behind it and diverges from the leader at that offset.
+		p.mu.RLock()
+		select {
+		case <-stop:
+			p.mu.RUnlock()
+			return
+		default:
+		}
 		offsets, err := p.log.Append(msgBatch)
+		p.mu.RUnlock()
 		if err != nil {
 
 			// AckErr should be dispatched if ErrIncorrectOffset is raised.
